@@ -104,6 +104,23 @@ def parse_out(line):
     return res
 
 
+def repeated_rename_conflict(line):
+    """does a conflict copy (model ids 4k+1 / 4k+2) get REPLACED during this run?  Conflict file names carry a timestamp with
+    one-second resolution: the model names them by (path, side) only, i.e. it describes renames that fall into one second and
+    overwrite the earlier copy; the real run keeps both when the seconds differ.  Such histories depend on the wall clock."""
+    snaps = parse_out(line)
+    if not snaps:
+        return False
+    for side in (1, 2):
+        prev = None
+        for sn in snaps:
+            cur = {k: v[:2] for k, v in sn[side].items() if k % 4 in (1, 2)}
+            if prev is not None and any(k in prev and prev[k] != v for k, v in cur.items()):
+                return True
+            prev = cur
+    return False
+
+
 def replay_states(history):
     """the pre-sync states of both sides as the harness builds them, given post-sync snapshots are fed back in"""
     return history.split(";")
